@@ -70,6 +70,17 @@ SUFFIX16 = _solver(16, T16)
 SUFFIX64 = _solver(64, T64)
 EDGE32 = [0, 1, 2, 0x3ff, 0x400, 0x7fffffff, 0x80000000, 0x80000001, 0xfffffbff, 0xfffffc00, 0xfffffffe, 0xffffffff]
 EDGE16 = [0, 1, 0xff, 0x100, 0x7fff, 0x8000, 0xfffe, 0xffff]
+KINDS = ["bytes", "bytearray", "memoryview", "memoryview-rw"]      # the byte strings of CPython (buffer protocol)
+
+
+def as_kind(b, kind):
+    if kind == "bytearray":
+        return bytearray(b)
+    if kind == "memoryview":
+        return memoryview(bytes(b))
+    if kind == "memoryview-rw":
+        return memoryview(bytearray(b))
+    return bytes(b)
 
 
 class CHECK(core.Check):
@@ -81,8 +92,11 @@ class CHECK(core.Check):
     RULE = ("byte strings: all of length <= 1 (quick) / <= 2 (thorough) exhaustively, then random lengths "
             "0..1024 with random / all-equal / single-bit contents; plus messages constructed (by inverting the reference "
             "CRC on the last 8 resp. 2 bytes) so that the checksum's halves take boundary values 0, 1, 2^31, 2^32-1 and "
-            "values within 2^10 of the ends, and constant messages of every length up to 32/128; "
-            "non-trivial = non-empty string; distinct by content")
+            "values within 2^10 of the ends, and constant messages of every length up to 32/128; a ladder of lengths "
+            "2^k-1, 2^k, 2^k+1 up to 2^14 (quick) / 2^18 (thorough) so that any size threshold inside the helpers is crossed; "
+            "every string is handed over as bytes, bytearray, memoryview or writable memoryview (case field `kind`), each "
+            "helper is called twice on it (results must agree) and the argument must be left unchanged; "
+            "non-trivial = non-empty string; distinct by content and kind")
     TRUSTED = ["correspondence: checking.crc16/crc64 run in-process on the same byte strings as the Lean model "
                "(driver engine 'crc'); struct.pack('!H') of CPython",
                "reference parameters (poly, init, xorout, no reflection) as stated in the property"]
@@ -94,13 +108,15 @@ class CHECK(core.Check):
                   "kernel evaluation. The model is tied to checking.py by running both on the same byte strings.")
     LEVEL_NOTE = ("Trusted: Lean kernel; axioms propext, Classical.choice, Quot.sound; the hand transcription of "
                   "checking.py validated only by the correspondence runs (all strings <= 1 byte quick / <= 2 bytes "
-                  "thorough + random up to 1 KiB); struct.pack and bytearray of CPython.")
+                  "thorough + random up to 1 KiB + a ladder of lengths around every power of two up to 16 KiB / 256 KiB, each as "
+                  "bytes, bytearray and memoryview); struct.pack and bytearray of CPython.")
 
     def exhaustive(self, tier):
         L = 2 if tier == "thorough" else 1
         for n in range(L + 1):
             for t in itertools.product(range(256), repeat=n):
-                yield {"data": hx(bytes(t))}
+                for kind in (KINDS if n <= 1 else ["bytes"]):
+                    yield {"data": hx(bytes(t)), "kind": kind}
 
     def boundary(self, rng, tier):
         """messages whose checksum takes boundary values of the OUTPUT space (each half at 0, 1, 2^31, 2^32-1 and
@@ -117,8 +133,21 @@ class CHECK(core.Check):
             for byte in (0x00, 0xff, 0x55, 0xaa):
                 yield {"data": hx(bytes([byte]) * k), "origin": "constant"}
 
+    def ladder(self, rng, tier):
+        """lengths around every power of two: a fast path that switches on at some size is crossed"""
+        top = 14 if tier == "quick" else 18
+        for k in range(2, top + 1):
+            for n in ((1 << k) - 1, 1 << k, (1 << k) + 1):
+                mode = rng.randrange(3)
+                b = (bytes([rng.randrange(256)]) * n if mode == 0 else
+                     rng.getrandbits(8 * n).to_bytes(n, "big"))
+                yield {"data": hx(b), "kind": rng.choice(KINDS), "origin": "ladder"}
+
     def generate(self, rng, n, tier):
         for c in self.boundary(rng, tier):
+            c["kind"] = rng.choice(KINDS)
+            yield c
+        for c in self.ladder(rng, tier):
             yield c
         for i in range(n):
             k = rng.choice([0, 1, 2, 3, 7, 8, 9, 63, 64, 255, 256, 1024, rng.randrange(1025)])
@@ -129,7 +158,7 @@ class CHECK(core.Check):
                 ba = bytearray(k); ba[rng.randrange(k)] = 1 << rng.randrange(8); b = bytes(ba)
             else:
                 b = bytes(rng.randrange(256) for _ in range(k))
-            yield {"data": hx(b)}
+            yield {"data": hx(b), "kind": rng.choice(KINDS)}
 
     def _bytes(self, case):
         return b"" if case["data"] == "-" else bytes.fromhex(case["data"])
@@ -139,11 +168,26 @@ class CHECK(core.Check):
 
     def impl(self, case):
         from ioflo.aid import checking
-        b = self._bytes(case)
-        r16 = checking.crc16(b)
-        top, bot = checking.crc64(b)
-        return [bytes(r16).hex() if isinstance(r16, (bytes, bytearray)) else repr(r16),
-                "%08x %08x" % (top, bot) if isinstance(top, int) and isinstance(bot, int) else repr((top, bot))]
+        raw = self._bytes(case)
+        outs = []
+        for rnd in range(2):            # twice: a result must not depend on what was computed before
+            b = as_kind(raw, case.get("kind", "bytes"))
+            try:
+                r16 = checking.crc16(b)
+                o16 = bytes(r16).hex() if isinstance(r16, (bytes, bytearray)) else repr(r16)
+            except Exception as ex:
+                o16 = "raised-" + type(ex).__name__
+            try:
+                top, bot = checking.crc64(b)
+                o64 = "%08x %08x" % (top, bot) if isinstance(top, int) and isinstance(bot, int) else repr((top, bot))
+            except Exception as ex:
+                o64 = "raised-" + type(ex).__name__
+            if bytes(b) != raw:
+                o16 = "argument-changed " + o16
+            outs.append([o16, o64])
+        if outs[0] != outs[1]:
+            return [outs[0][0] + " then " + outs[1][0], outs[0][1] + " then " + outs[1][1]]
+        return outs[0]
 
     def oracle(self, case, out):
         b = self._bytes(case)
@@ -161,12 +205,23 @@ class CHECK(core.Check):
 
     def bucket(self, case, out):
         n = len(self._bytes(case))
-        return "len0" if n == 0 else "len1-2" if n <= 2 else "len3-64" if n <= 64 else "len65-1024"
+        return (case.get("kind", "bytes") + ":" +
+                ("len0" if n == 0 else "len1-2" if n <= 2 else "len3-64" if n <= 64 else "len65-1024" if n <= 1024
+                 else "len1025-16K" if n <= 16385 else "len>16K"))
 
     def shrink_candidates(self, case):
         b = self._bytes(case)
+        k = case.get("kind", "bytes")
+        if k != "bytes":
+            yield {"data": case["data"], "kind": "bytes"}
+        if len(b) > 64:                 # long strings: halve first, then trim in blocks
+            for cut in (len(b) // 2, len(b) // 4, 64, 8):
+                yield {"data": hx(b[:len(b) - cut]), "kind": k}
+                yield {"data": hx(b[cut:]), "kind": k}
+            yield {"data": hx(bytes(len(b))), "kind": k}
+            return
         for i in range(len(b)):
-            yield {"data": hx(b[:i] + b[i + 1:])}
+            yield {"data": hx(b[:i] + b[i + 1:]), "kind": k}
         for i in range(len(b)):
             if b[i]:
-                yield {"data": hx(b[:i] + b"\0" + b[i + 1:])}
+                yield {"data": hx(b[:i] + b"\0" + b[i + 1:]), "kind": k}
